@@ -66,7 +66,7 @@ PresetsFull == PresetsQuick \o << [signers |-> <<"A1", "A2", "A4">>, min |-> 2, 
 View == <<st, phase, nTx, nFail>>
 
 ------------------------------------------------------------------------------
-Inv == C03State(st) /\ C04State(st) /\ C02StateModel(st) /\ NotHalted(st)
+Inv == C03State(st) /\ C04State(st) /\ C02StateModel(st) /\ NotHalted(st) /\ C15State(st)
 LastEv == hist[Len(hist)]
 \* step properties: evaluated on every transition of the model
 StepProps == [][ hist' # hist =>
